@@ -451,9 +451,12 @@ pub fn minimise(p: &dyn Property, case: &Value, v: &Violation) -> (Value, Violat
     let mut cur_v = v.clone();
     let mut execs = 0usize;
     let budget = 400usize;
+    // wall-clock bound as well: a shrink candidate may be far more expensive than the original case
+    // (the reported case is then less small, never different in kind; replay does not minimise)
+    let started = std::time::Instant::now();
     'outer: loop {
         for cand in p.shrink(&cur) {
-            if execs >= budget {
+            if execs >= budget || started.elapsed().as_secs() >= 120 {
                 break 'outer;
             }
             execs += 1;
